@@ -1061,6 +1061,7 @@ def check_result(rep, env, case, p, prior_c, prior_z, res, log, prior_raw=None):
     ps, pamb, psamb = group_scores(env, p, pc, pz)
     ps = np.asarray(ps, dtype=np.float64)
     usable = np.isfinite(ps) & ~psamb
+    ps_projected, rs_raw, outside_rows = ps.copy(), None, None
     if prior_raw is not None and not np.array_equal(prior_raw, prior_c):
       # a prior outside the cube is ranked by the optimiser with the score of
       # its raw coordinates; when that is below the score of its projection the
@@ -1069,6 +1070,8 @@ def check_result(rep, env, case, p, prior_c, prior_z, res, log, prior_raw=None):
       pr = prior_raw[:groups * P].reshape(groups, P, n)
       rs, ramb, rsamb = group_scores(env, p, pr, pz)
       rs = np.asarray(rs, dtype=np.float64)
+      rs_raw = rs
+      outside_rows = np.any(pr != pc, axis=(1, 2))
       usable &= np.isfinite(rs) & ~rsamb
       with np.errstate(invalid='ignore'):
         lower = rs < ps
@@ -1113,6 +1116,14 @@ def check_result(rep, env, case, p, prior_c, prior_z, res, log, prior_raw=None):
             cond += ':padded-prior-rows'
           cond += ':best-prior-' + ('oldest' if k == 0 else 'newest'
                                     if k == groups - 1 else 'inner')
+          if rs_raw is not None and ':more-priors-than-pool-slots' in cond:
+            # an out-of-cube prior that the optimiser ranks (by the score of its raw
+            # coordinates) above the lost prior, although its projection into the cube -
+            # the only thing that can be returned - scores below it
+            with np.errstate(invalid='ignore'):
+              displacing = outside_rows & np.isfinite(rs_raw) & (rs_raw > best_prior) & (ps_projected < best_prior)
+            if displacing.any():
+              cond = ':displaced-by-out-of-cube-prior-ranked-by-raw-score'
         rep.violation(
             f'worse-than-prior:{fam}{cond}',
             f'{strat}: best returned reward {best!r} < score {best_prior!r} of '
